@@ -11,7 +11,7 @@ from . import core, props
 from .scen import g, draw, op, iff, scenario, IntRange
 
 CONC_CFG = props.INV_CFG
-CONC_EVENTS = ("scen.begin,scen.end,run.begin,run.end,h.once.begin,h.once.end,inv.begin,inv.end,ctx,call,failed.read,cleanup.reg,cleanup.run,"
+CONC_EVENTS = ("hang,scen.begin,scen.end,run.begin,run.end,h.once.begin,h.once.end,inv.begin,inv.end,ctx,call,failed.read,cleanup.reg,cleanup.run,"
                "solo,shared,harness.done")
 CONC_MC = [("Conc", "ConcMC.cfg", "hold", ("quick", "thorough")),
            ("Conc", "ConcMC_broken_fail.cfg", "violate", ("quick", "thorough")),
@@ -45,6 +45,17 @@ def c14_scenarios(tier, seed):
             prop2 = {"body": [op("ctx", text="main-first") if i % 2 else op("helper"), op("go", n=n, val=point, body=body), draw(g("Bool"), "b")]}
             out.append(scenario("c14-gated2-%s-%s-%d" % (point, ms, i), prop2, dict(base, seed=rng.randrange(1, 1 << 64)),
                                 tag={"gate": point, "methods": ms, "goroutines": n}))
+    # goroutines that are still registering cleanups while the engine already runs the test case's cleanups
+    for i in range(reps):
+        prop = {"body": [op("cleanup", body=[op("join")]), op("goasync", n=rng.choice([4, 8]), ms=rng.choice([50, 150]), body=[op("cleanup", body=[])]),
+                         draw(g("Bool"), "b")]}
+        out.append(scenario("c14-late-cleanups-%d" % i, prop, dict(base, seed=rng.randrange(1, 1 << 64), checks=3), tag={"methods": "cleanup during cleanup", "goroutines": 8}))
+    # a state machine running while goroutines call write-locking methods all the time (lock-order / re-entrancy mistakes deadlock here)
+    for i in range(max(2, reps // 2)):
+        prop = {"body": [op("goasync", n=4, text="quiet", ms=4000, body=[op("cleanup", body=[]), op("failed"), op("ctx", text="g")]),
+                         op("repeat", actions={"a": [draw(g("Bool"), "b")], "b": [draw(g("Byte"), "c")]}, inv=[op("failed")]), op("join")]}
+        out.append(scenario("c14-repeat-writers-%d" % i, prop, dict(base, seed=rng.randrange(1, 1 << 64), checks=20, steps=200),
+                            tag={"methods": "Repeat + concurrent writers", "goroutines": 4}))
     # ungated, unrecorded inside the goroutines (recording would add happens-before edges): every pair of methods
     names = sorted(METHODS)
     pairs = [(a, b) for i, a in enumerate(names) for b in names[i:]]
@@ -115,7 +126,7 @@ def run_c14(tier, seed, replay, keep):
     wd = core.scratch("verif-c14-")
     try:
         env = {"GORACE": "log_path=%s/race halt_on_error=0" % wd}
-        paths = props.run_scenarios_parallel(binary, scenarios, CONC_EVENTS, wd, env=env, par=8)
+        paths = props.run_scenarios_parallel(binary, scenarios, CONC_EVENTS, wd, env=env, par=8, extra=("-verif.hang", "25s"))
         paths, races = append_races(paths, wd)
         if keep:
             shutil.copytree(wd, "/tmp/keep-C14", dirs_exist_ok=True)
